@@ -51,6 +51,8 @@ def list_units(db, prop=None):
     """[(kind, name, variant)] for everything tagged with `prop` (or all)"""
     units = []
     for q, cd in sorted(db.contracts.items()):
+        if cd.options.get("trusted"):
+            continue
         if prop is None or prop in cd.options.get("props", []):
             for v in variants_of(cd):
                 units.append(("contract", q, v))
@@ -58,7 +60,8 @@ def list_units(db, prop=None):
         if prop is None or prop in ld.options.get("props", []) or not ld.options.get("props"):
             units.append(("lemma", n, {}))
     for n, sd in sorted(db.specs.items()):
-        units.append(("spec", n, {}))
+        if not getattr(sd, "abstract", False):
+            units.append(("spec", n, {}))
     return units
 
 
@@ -104,6 +107,8 @@ def verify_unit(unit, timeout_ms=10000):
             obls = fv.verify()
             out["sha"] = fv.sha
             out["file"] = E.src.function(name)[3]
+            out["branches"] = fv.branches
+            out["dead_ok"] = cd.options.get("dead_branches", [])
         elif kind == "lemma":
             cd = db.lemmas[name]
             fv = FunctionVerifier(E, cd, variant)
@@ -160,8 +165,13 @@ def main(argv):
     if a.unit:
         units = [u for u in units if any(x == u[1] or u[1].endswith("." + x) for x in a.unit)]
     bad = 0
+    br = {}
     for u in units:
         r = verify_unit(u, a.timeout)
+        for k_, v_ in (r.get("branches") or {}).items():
+            cur = br.setdefault((u[1], k_), [False, False, r.get("dead_ok", [])])
+            cur[0] = cur[0] or v_[0]
+            cur[1] = cur[1] or v_[1]
         n = len(r["obligations"])
         ok = sum(1 for o in r["obligations"] if o["status"] == "unsat")
         print("%-8s %-60s %s  %d/%d  %.1fs" % (u[0], u[1], u[2] or "", ok, n, r["wall_s"]))
@@ -178,6 +188,11 @@ def main(argv):
                 if o.get("model"):
                     print("       model:", {k: v for k, v in list(o["model"].items())[:12]})
                 bad += o["status"] != "unsat"
+    for (fn, k_), v_ in br.items():
+        for side, name in ((0, "then"), (1, "else")):
+            if not v_[side] and (k_ + " " + name) not in v_[2] and not any(k_.startswith(d.rsplit(" @", 1)[0]) and d.endswith(name) for d in v_[2]):
+                print("   UNREACHED-BRANCH %s: %s [%s side never explored under the contract]" % (fn, k_, name))
+                bad += 1
     return 1 if bad else 0
 
 
